@@ -194,6 +194,7 @@ pub fn check(plans: &[Plan], recs: &[RunRec]) -> Outcome {
     let mut out = Outcome::default();
     common_stats(plan, rec, &mut out.stats);
     super::check_input_blocked(rec, &mut out);
+    super::check_input_panic(rec, &mut out);
     let h = history(rec);
     let views = go_views(&h);
     if plan.params.b("long_session") {
